@@ -10,6 +10,7 @@ import Proofs.CoDrainSlow
 import Proofs.CoFinal
 import Proofs.CoFinalQueries
 import Proofs.CoDrainWriters
+import Proofs.CoNetBounds
 import Proofs.CoFuelDrain
 /-! C16 — cooperative interleaving of generators. All eleven `*_iter` generators of traph.py are explicit coroutine
     state machines (`Traph/Co.lean`: the two writers, the page and network queries, and the seven other queries under
@@ -286,5 +287,43 @@ theorem C16_drained_pages_net {s : State} {t : T} (h : Shape s t) (hg : cf_SumOk
   Traph.cf_drain_atomic h hg ps hwf out auto
 
 end Final
+
+section NetQuery
+open Traph State Layout
+/-! ### the network query under interleaving (Proofs/CoNetBounds) — the two bounds of the property's last clause -/
+
+/-- NETWORK QUERY, ONE BOUND, EVERY SCHEDULE, EVERY REACHABLE START STATE: whatever writers run in between, the answer is
+    backed by the FINAL index: `cnb_AnsFull` = there is a list of distinct page blocks, each recorded with an id carried by
+    the block itself or a stem-prefix above it (`cnb_Rec`), such that every row and target key is a recorded id (self-links
+    only with `include_auto`), rows are keyed once with one entry per target and positive weights, the tallies of a row count
+    its recorded pages, and every weight `g[A][B]` is at most the number of links (with multiplicity) from recorded pages
+    of id A to recorded pages of id B in the final link lists (`cnb_linkW`). (The id a page is recorded with can be one it
+    carried at an earlier moment: that is finding F16, mechanism 2.) -/
+theorem C16_net_query_sound {s : State} (hreach : Reachable s) (reqs : List CoReq) (sched : Sched)
+    (i : Nat) (out auto : Bool) (hreq : reqs[i]? = some (.queryNet out auto)) (a : Ans)
+    (hdone : (i, CoOut.done a) ∈ (Sys.run (s, reqs.map CoReq.init) sched).2) :
+    ∃ t t', Shape s t ∧ Shape (Sys.run (s, reqs.map CoReq.init) sched).1.1 t' ∧
+      (∀ p b, (p, b) ∈ t.entries s [] → (p, b) ∈ t'.entries (Sys.run (s, reqs.map CoReq.init) sched).1.1 []) ∧
+      ∃ g, a = .net g ∧ cnb_AnsFull (Sys.run (s, reqs.map CoReq.init) sched).1.1 t' out auto g :=
+  Traph.C16_net_query_sound_reachable hreach reqs sched i out auto hreq a hdone
+
+/-- NETWORK QUERY, OTHER BOUND: a link whose two end pages exist from the start and resolve to the same webentities A and B
+    THROUGHOUT the execution (`cnb_res` = the nearest non-zero id along the blocks of the page's stem-prefixes; A ≠ B unless
+    `include_auto`) is counted: the answer has a row A with an entry B of at least the link's starting weight -/
+theorem C16_net_query_complete {s : State} (hreach : Reachable s) (reqs : List CoReq) (sched : Sched)
+    (i : Nat) (out auto : Bool) (hreq : reqs[i]? = some (.queryNet out auto))
+    (pa pb : LRU) (a b A B : Nat) (nodesA nodesB : List Nat) (hpa0 : pa ≠ []) (hpb0 : pb ≠ [])
+    (ha : s.lruNode pa = some a) (hb : s.lruNode pb = some b)
+    (hpa : (s.cell a).flags.page = true) (hpb : (s.cell b).flags.page = true)
+    (hnA : nodesA.length = pa.length ∧ ∀ k (hk : k < nodesA.length), s.lruNode (pa.take (k + 1)) = some nodesA[k])
+    (hnB : nodesB.length = pb.length ∧ ∀ k (hk : k < nodesB.length), s.lruNode (pb.take (k + 1)) = some nodesB[k])
+    (hA : A ≠ 0) (hB : B ≠ 0) (hauto : auto = true ∨ A ≠ B)
+    (hlink : 0 < count b (cf_listOf s out a))
+    (hthr : Throughout (fun s' => cnb_res s' 0 nodesA = A ∧ cnb_res s' 0 nodesB = B) (s, reqs.map CoReq.init) sched)
+    (g : List NetRow) (hdone : (i, CoOut.done (.net g)) ∈ (Sys.run (s, reqs.map CoReq.init) sched).2) :
+    ∃ r ∈ g, r.src = A ∧ ∃ w', (B, w') ∈ r.targets ∧ count b (cf_listOf s out a) ≤ w' :=
+  Traph.C16_net_query_complete_reachable hreach reqs sched i out auto hreq pa pb a b A B nodesA nodesB hpa0 hpb0 ha hb hpa hpb hnA hnB hA hB hauto hlink hthr g hdone
+
+end NetQuery
 
 end Traph.Props
